@@ -301,44 +301,56 @@ def check_router(ctx, capped, clock):
         ctx.sample("router", {"case": list(recs[0][0]), "rhl": recs[0][1], "mhl": recs[0][2], "lt_code": recs[0][3]})
 
 
+def guard_outcome(pkt, rhl, mhl):
+    """feed a frame with patched hop bytes to a fresh receiver; 'processed' = any observable effect
+    (indication, location-table entry, transmission)"""
+    frame = bytearray(pkt)
+    frame[3] = rhl
+    frame[10] = mhl
+    rx, ll, inds = rs.make_router(9)
+    try:
+        with rs.quiet():
+            rx.gn_data_indicate(bytes(frame))
+    except Exception:  # noqa: BLE001  (DecapError is how the code discards)
+        pass
+    processed = bool(inds) or bool(rx.location_table.loc_t) or bool(ll.sent)
+    return processed, inds
+
+
 def check_guard(ctx, clock):
-    """receiver: RHL > MHL must be discarded; RHL <= MHL delivered (SHB frame with patched hop bytes)"""
-    pkt = emit("shb", 1, 10, 3000, 60, clock)
+    """receiver: RHL > MHL must be discarded for EVERY packet type; RHL <= MHL is processed"""
     pairs = [(r, m) for r in (0, 1, 2, 9, 10, 11, 254, 255) for m in (0, 1, 2, 10, 254, 255)]
     if ctx.thorough:
         pairs = [(r, m) for r in range(256) for m in range(0, 256, 5)]
     lines, reals = [], []
-    for rhl, mhl in pairs:
-        frame = bytearray(pkt)
-        frame[3] = rhl
-        frame[10] = mhl
-        rx, _, inds = rs.make_router(9)
-        outcome = "delivered"
-        try:
-            with rs.quiet():
-                rx.gn_data_indicate(bytes(frame))
-            if not inds:
-                outcome = "discarded"
-        except Exception as e:  # DecapError is how the code discards today
-            outcome = "discarded:" + type(e).__name__
-        ctx.evals()
-        ctx.nontrivial(("guard", rhl, mhl))
-        delivered = outcome == "delivered"
-        if rhl > mhl and delivered:
-            ctx.violation(f"receiver delivered a packet with rhl {rhl} > mhl {mhl}", {"kind": "guard", "rhl": rhl, "mhl": mhl})
-        if delivered:
-            ind = inds[0]
-            if ind.remaining_hop_limit != rhl:
-                ctx.violation(f"indication reports hop limit {ind.remaining_hop_limit}, wire {rhl}", {"kind": "guard", "rhl": rhl, "mhl": mhl})
-            if ind.remaining_packet_lifetime * 1000 > 3000:
-                ctx.violation(f"indication lifetime {ind.remaining_packet_lifetime}s exceeds wire 3000 ms", {"kind": "guard", "rhl": rhl, "mhl": mhl})
-        lines.append(f"guard {rhl} {mhl}")
-        reals.append(((rhl, mhl), "1" if delivered else "0"))
+    for t in TRANSPORTS:
+        pkt = emit(t, 5, 10, 3000, 60, clock)
+        sub = pairs if t == "shb" or ctx.thorough else pairs[::3]
+        for rhl, mhl in sub:
+            processed, inds = guard_outcome(pkt, rhl, mhl)
+            ctx.evals()
+            ctx.nontrivial(("guard", t, rhl, mhl))
+            if rhl > mhl and processed:
+                ctx.violation(f"receiver processed a {t} packet with rhl {rhl} > mhl {mhl}",
+                              {"kind": "guard", "transport": t, "rhl": rhl, "mhl": mhl})
+            if rhl <= mhl and not processed:
+                ctx.violation(f"receiver ignored a {t} packet with rhl {rhl} <= mhl {mhl}",
+                              {"kind": "guard", "transport": t, "rhl": rhl, "mhl": mhl})
+            if inds:
+                ind = inds[0]
+                if ind.remaining_hop_limit != rhl:
+                    ctx.violation(f"indication reports hop limit {ind.remaining_hop_limit}, wire {rhl}",
+                                  {"kind": "guard", "transport": t, "rhl": rhl, "mhl": mhl})
+                if ind.remaining_packet_lifetime * 1000 > 3000:
+                    ctx.violation(f"indication lifetime {ind.remaining_packet_lifetime}s exceeds wire 3000 ms",
+                                  {"kind": "guard", "transport": t, "rhl": rhl, "mhl": mhl})
+            lines.append(f"guard {rhl} {mhl}")
+            reals.append(((t, rhl, mhl), "1" if processed else "0"))
+        ctx.cover(f"guard_{t}", len(sub))
     if ctx.model_ok:
         for (inp, r), mo in zip(reals, ctx.model("LT", lines)):
             if r != mo:
                 ctx.mismatch("guard", list(inp), r, mo)
-    ctx.cover("guard_pairs", len(pairs))
 
 
 def run(ctx):
@@ -407,16 +419,10 @@ def replay(ctx, obj):
                     bad = oracle_hops(t, h, d, rhl, mhl) + oracle_lifetime(want_ms, lt_ms)
                     print(f"{case['case']} -> rhl={rhl} mhl={mhl} lt={lt_ms}: {bad or 'ok'}")
                     return bool(bad)
-                rhl, mhl = case["rhl"], case["mhl"]
-                pkt = bytearray(emit("shb", 1, 10, 3000, 60, clock))
-                pkt[3], pkt[10] = rhl, mhl
-                rx, _, inds = rs.make_router(9)
-                try:
-                    with rs.quiet():
-                        rx.gn_data_indicate(bytes(pkt))
-                except Exception:
-                    pass
-                return bool(inds) and rhl > mhl
+                rhl, mhl, t = case["rhl"], case["mhl"], case.get("transport", "shb")
+                processed, _ = guard_outcome(emit(t, 5, 10, 3000, 60, clock), rhl, mhl)
+                print(f"{t} rhl={rhl} mhl={mhl} processed={processed}")
+                return processed != (rhl <= mhl)
         finally:
             router_mod.Timer = threading.Timer
     raise Infra(f"unknown replay kind {kind}")
